@@ -9,6 +9,7 @@ clone (+attach), Section.merge, the link setter and clean (Model/HeapExt.lean).
 """
 import itertools
 import random
+import re
 import sys
 
 import framework as fw
@@ -27,6 +28,22 @@ class HeapCheck(fw.Check):
             g = hc.Gen(random.Random(rng.randrange(1 << 60)),
                        max_ops=self.max_ops if tier == "quick" else 80)
             out.append({"ops": g.history()})
+        out.extend(self.odd_histories(tier, rng))
+        return out
+
+    odd_quick_n = 500
+    odd_thorough_n = 4000
+    odd_nan = False
+
+    def odd_histories(self, tier, rng):
+        """Oracle-only histories (no model requests): names and ids that are not texts - int, bool,
+        float, bytes, tuple, None-like - and documents loaded from YAML / JSON / XML text. The model
+        compares names as strings and cannot represent them; the implementation-level oracles can."""
+        n = self.odd_quick_n if tier == "quick" else self.odd_thorough_n
+        out = []
+        for _ in range(n):
+            g = hc.Gen(random.Random(rng.randrange(1 << 60)), max_ops=30, odd=True, nan=self.odd_nan)
+            out.append({"ops": g.history(), "oracle_only": True})
         return out
 
     def generate(self, tier, rng):
@@ -37,9 +54,13 @@ class HeapCheck(fw.Check):
         return {"trace": trace, "done": done}
 
     def model_requests(self, case, obs):
+        if case.get("oracle_only"):
+            return []
         return [{"op": "run", "ops": hc.model_ops(obs["done"])}]
 
     def compare(self, case, obs, answers):
+        if case.get("oracle_only"):
+            return []
         model = answers[0]
         brk, _ = hc.first_wf_break(obs["trace"])
         out = []
@@ -62,7 +83,8 @@ class HeapCheck(fw.Check):
         tr = obs.get("trace", [])
         refused = sum(1 for s in tr if s["out"] != "ok")
         kinds = sorted(set(op["op"] for op in obs.get("done", [])))
-        return ("ops=%d refused=%d" % (len(tr) // 10 * 10, min(refused, 9) // 3 * 3),
+        return ("%sops=%d refused=%d" % ("odd:" if case.get("oracle_only") else "", len(tr) // 10 * 10,
+                                         min(refused, 9) // 3 * 3),
                 len(tr) >= 5 and len(kinds) >= 3)
 
 
@@ -345,6 +367,8 @@ class XWorld(hc.World):
         finally:
             if kind == "clone":
                 self.last_clone = len(O) if created and created[0] is not None else None
+                self.last["clone"] = self.last_clone
+                self.last["clone_src"] = op["x"]
             O.extend(created)
             op["fresh"] = [o.id if o is not None else "" for o in created]
 
@@ -354,10 +378,11 @@ def resolve_x(w, op):
     op = dict(op)
     for key, val in list(op.items()):
         if isinstance(val, dict) and val.get("last"):
-            if w.last_clone is None or w.last_clone >= len(w.objs) or w.objs[w.last_clone] is None:
+            h = w.last_clone if val["last"] is True else w.last.get("clone_src")
+            if h is None or h >= len(w.objs) or w.objs[h] is None:
                 return None
-            op[key] = w.last_clone
-            if op["op"] == "rename" and w.kind(w.objs[w.last_clone]) == "doc":
+            op[key] = h
+            if op["op"] == "rename" and w.kind(w.objs[h]) == "doc":
                 return None      # a Document has no name setter (plain attribute; not an editing operation)
     if op["op"] not in X_OPS:
         return hc.resolve(w, op)
@@ -365,6 +390,9 @@ def resolve_x(w, op):
     def pick(sym):
         if isinstance(sym, int):
             return sym
+        if "rel" in sym:
+            h = hc.pick(w, sym)
+            return None if h == -1 else h
         cand = [i for i, o in enumerate(w.objs) if w.kind(o) in sym["cls"]]
         return cand[sym["n"] % len(cand)] if cand else None
     for key in ("x", "dest", "src", "tsym"):
@@ -379,21 +407,24 @@ def run_history_x(ops):
     w = XWorld()
     trace, done, skipped = [], [], 0
     for op in ops:
-        cop = resolve_x(w, op)
-        if cop is None:
-            continue
-        if cop["op"] in X_OPS and not w.prepare(cop):
-            skipped += 1
-            continue
-        try:
-            w.apply(cop)
-            out = "ok"
-        except RecursionError:
-            out = "RecursionError"
-        except Exception as exc:
-            out = fw.exc_name(exc)
-        trace.append({"out": out, "snap": w.snapshot()})
-        done.append(cop)
+        if op["op"] in ("mirror", "twin"):
+            steps = hc.expand(w, op)
+        else:
+            cop = resolve_x(w, op)
+            steps = [] if cop is None else [cop]
+        for cop in steps:
+            if cop["op"] in X_OPS and not w.prepare(cop):
+                skipped += 1
+                continue
+            try:
+                w.apply(cop)
+                out = "ok"
+            except RecursionError:
+                out = "RecursionError"
+            except Exception as exc:
+                out = fw.exc_name(exc)
+            trace.append({"out": out, "snap": w.snapshot()})
+            done.append(cop)
     return trace, done, skipped
 
 
@@ -416,6 +447,43 @@ class GenX(hc.Gen):
             op["unit"] = r.choice([None, None, "mV", "V"])
             op["vals"] = r.choice([[1], [1], [2], [1, 2]])
         return op
+
+    def after_clone(self):
+        """The copy has been attached somewhere: operations that mix the original and its copy (they
+        are deep-equal, with keep_id they also share the id): children of one moved into the other,
+        either name cleared or changed, the original put beside the copy."""
+        r = self.rng
+        src, cl = hc.last("clone_src"), hc.last("clone")
+        sch = lambda: self.child_of(src)
+        cch = lambda: self.child_of(cl)
+        ops = []
+        for _ in range(r.choice([0, 1, 1, 2, 3])):
+            c = r.randrange(12)
+            if c < 3:
+                ops.append({"op": "set_parent", "x": sch(), "np": cl})
+            elif c == 3:
+                ops.append({"op": "set_parent", "x": cch(), "np": src})
+            elif c == 4:
+                ops.append(r.choice([{"op": "append", "p": cl, "x": sch()},
+                                     {"op": "insert", "p": cl, "pos": r.randrange(-3, 5), "x": sch()},
+                                     {"op": "extend", "p": cl, "xs": [sch()]},
+                                     {"op": "set_item", "p": cl, "sec_list": r.random() < 0.6,
+                                      "key": r.randrange(-3, 4), "v": sch()}]))
+            elif c == 5:
+                ops.append(r.choice([{"op": "remove", "p": src, "x": cch()}, {"op": "remove", "p": cl, "x": sch()}]))
+            elif c < 9:
+                ops.append({"op": "rename", "x": r.choice([src, cl]), "new": r.choice(["", "", "a", "b"]),
+                            "empty": r.choice(["none", "str"])})
+            elif c == 9:
+                a, b = r.choice([(src, cl), (cl, src)])
+                ops.append(r.choice([{"op": "set_parent", "x": a, "np": hc.parent_of(b)},
+                                     {"op": "append", "p": hc.parent_of(b), "x": a}]))
+            elif c == 10:
+                ops.append({"op": "new_id", "x": r.choice([src, cl]),
+                            "oid": r.choice([None, {"idof": r.choice([src, cl]), "form": None}]), "fresh": ""})
+            else:
+                ops.append({"op": "set_parent", "x": self.child_of(sch()), "np": cch()})
+        return ops
 
     def history(self):
         r = self.rng
@@ -451,6 +519,7 @@ class GenX(hc.Gen):
                         ops.append({"op": "insert", "p": cont(), "pos": r.randrange(-3, 5), "x": {"last": True}})
                     else:
                         ops.append({"op": "set_parent", "x": {"last": True}, "np": cont()})
+                    ops.extend(self.after_clone())
             elif c < 0.76:
                 ops.append({"op": "merge", "dest": sec(), "src": sec(), "strict": r.random() < 0.5})
             elif c < 0.90:
@@ -464,6 +533,7 @@ class GenX(hc.Gen):
 
 class C03(HeapCheck):
     prop = "C03"
+    odd_nan = True        # NaN names only here: an object listed twice shows as a duplicate name as well
     lean_targets = ["OdmlModel.Props.C03"]
     obligations = ["C03." + t for t in [
         "wf_empty", "wf_step", "wf_reachable_partial", "wf_run", "parent_chain_terminates",
@@ -501,7 +571,17 @@ class C03(HeapCheck):
             "these with clone (+rename/attach of the copy), merge (strict or not; related pairs non-strict), "
             "link assignment (C12's scope) and clean on Sections of two types with different definitions and "
             "Properties with different units/values, <= 45 objects, all compared with the model after every op; "
-            "plus clone/merge/link/finalize histories checked by the oracle only. Non-trivial = at least 5 "
+            "plus clone/merge/link/finalize histories checked by the oracle only. Since seeded round 3: names "
+            "also from a list of other texts ('/', blanks, line feeds, 300 characters, the id text or name of a "
+            "live object), ids in ~75 spellings (white space / line feeds / control characters around the "
+            "canonical text, brace and urn: combinations, digits of other scripts) or copied from a live object, "
+            "positions up to +-2^62, extend with a tuple / iterator / an odML container as argument, macro "
+            "operations (a deep-equal copy of a subtree built elsewhere; a twin with the name and id of an "
+            "existing object) followed by operations that mix the children of original and copy, an object "
+            "added once more to its own container; after clone+attach operations between original and copy; "
+            "and oracle-only histories (no model requests) whose names / ids / positions are not texts / "
+            "machine ints (int, bool, float, NaN, bytes, tuple, None) or that start from a document loaded "
+            "from YAML / JSON / XML text. Non-trivial = at least 5 "
             "executed ops of at least 3 kinds (extended histories: at least one extended operation); distinct "
             "= distinct canonical JSON of the history.")
 
@@ -657,6 +737,24 @@ class C03(HeapCheck):
             return ("extra:" + "+".join(sorted(set(l[0] for l in obs.get("log", [])))[:3]), True)
         return HeapCheck.tag(self, case, obs)
 
+    @staticmethod
+    def nan_note(op, snap, failure):
+        """Marks the one shape of the known finding nan-name-readded: the object that is added
+        (append / insert / extend / item assignment) has a NaN as its name. Every sibling-name check
+        compares names with ==, and a NaN is not even equal to itself: the object is not recognised
+        in the list it already lives in."""
+        if op["op"] not in ("append", "insert", "extend", "set_item"):
+            return ""
+        added = op["xs"] if op["op"] == "extend" else [op["v"] if op["op"] == "set_item" else op["x"]]
+        if any(isinstance(i, int) and i < len(snap) and snap[i]["name"] == u"\x01nan:%d" % i for i in added):
+            return " [the name of the added object is NaN]"
+        return ""
+
+    def finding_key(self, case, obs, failure):
+        if case.get("oracle_only") and failure.endswith(" [the name of the added object is NaN]"):
+            return "nan-name-readded"
+        return None
+
     def oracle(self, case, obs):
         if "harness_exception" in obs:
             return []
@@ -676,7 +774,8 @@ class C03(HeapCheck):
         k, fails = hc.first_wf_break(obs["trace"])
         out = []
         if k is not None:
-            out = ["after op %d %s (%s): %s" % (k, obs["done"][k], obs["trace"][k]["out"], f)
+            out = ["after op %d %s (%s): %s%s" % (k, obs["done"][k], obs["trace"][k]["out"], f,
+                                                  self.nan_note(obs["done"][k], obs["trace"][k]["snap"], f))
                    for f in fails[:4] if "duplicate" not in f and "empty name" not in f]
         for k2, step in enumerate(obs["trace"]):
             if step["out"] == "RecursionError":
